@@ -193,4 +193,71 @@ theorem common_tilt_period_energy_aux (fs : List (Fld ℂ)) (S0 S1 K L : ℕ) (h
   · simp only [RealLike.ofInt, cc]; push_cast; ring
   · simp only [RealLike.ofInt, cc]; push_cast; ring
 
+/-! ## fields with different tilts -/
+
+/-- a field multiplied by the phase ramp of a tilt shift `(s0, s1)` (in output samples) at sampling `(αr, αc)` -/
+noncomputable def rampFld (f : Fld ℂ) (αr αc s0 s1 : ℝ) : Fld ℂ :=
+  ⟨⟨f.arr.s0, f.arr.s1, fun x y => f.arr.get x y *
+      Complex.exp ((2 * Real.pi * Complex.I) * ((αr * ((cc f.arr.s0 x + f.o0 : ℤ) : ℝ) * s0 + αc * ((cc f.arr.s1 y + f.o1 : ℤ) : ℝ) * s1 : ℝ) : ℂ))⟩,
+    f.o0, f.o1⟩
+
+theorem ker_split_shift (α : ℝ) (m off : ℤ) (p s : ℝ) (x : ℤ) :
+    ker α m 1 off (-(p - s)) x 0 = ker α m 1 off (-p) x 0 * Complex.exp ((2 * Real.pi * Complex.I) * ((α * ((cc m x + off : ℤ) : ℝ) * s : ℝ) : ℂ)) := by
+  unfold ker
+  rw [← Complex.exp_add]
+  congr 1
+  push_cast
+  ring
+
+/-- evaluating the transform at a displaced coordinate = evaluating the transform of the ramped field -/
+theorem fraunhoferAt_ramp (f : Fld ℂ) (αr αc s0 s1 pr pc : ℝ) :
+    fraunhoferAt f αr αc (pr - s0) (pc - s1) = fraunhoferAt (rampFld f αr αc s0 s1) αr αc pr pc := by
+  unfold fraunhoferAt rampFld
+  rw [dft2_get_eq, dft2_get_eq]
+  congr 1
+  unfold dft2Sum
+  refine sum_congr rfl fun y _ => ?_
+  rw [sum_mul, sum_mul]
+  refine sum_congr rfl fun x _ => ?_
+  simp only [ker_split_shift]
+  have : ((αr * ((cc f.arr.s0 x + f.o0 : ℤ) : ℝ) * s0 + αc * ((cc f.arr.s1 y + f.o1 : ℤ) : ℝ) * s1 : ℝ) : ℂ)
+      = ((αr * ((cc f.arr.s0 x + f.o0 : ℤ) : ℝ) * s0 : ℝ) : ℂ) + ((αc * ((cc f.arr.s1 y + f.o1 : ℤ) : ℝ) * s1 : ℝ) : ℂ) := by push_cast; ring
+  rw [this, mul_add, Complex.exp_add]
+  ring
+
+theorem fits_ramp (f : Fld ℂ) (αr αc s0 s1 : ℝ) (S0 S1 : ℕ) (h : Fits f S0 S1) : Fits (rampFld f αr αc s0 s1) S0 S1 := h
+
+/-- sum over fields of the transform at an integer coordinate -/
+theorem sum_fraunhoferAt_int (fs : List (Fld ℂ)) (αr αc : ℝ) (U V : ℤ) :
+    (fs.map fun f => fraunhoferAt f αr αc ((U : ℤ) : ℝ) ((V : ℤ) : ℝ)).sum = fieldAt fs αr αc U V := by
+  induction fs with
+  | nil => simp [fieldAt_nil]
+  | cons f fs ih => rw [List.map_cons, List.sum_cons, ih, fieldAt_cons, fraunhoferAt_int]
+
+/-- **fields with different tilts.** Each field `t` carries its own shift `fix + sub`; where every field's window covers a whole
+period the intensity summed over that period is the power of the coherent sum of the *tilted* input fields (each multiplied by its
+own phase ramp): tilts make the fields interfere, the propagation itself still conserves energy. -/
+theorem multi_tilt_period_energy_aux (ts : List (TField ℂ ℝ)) (S0 S1 K L : ℕ) (hfit : ∀ t ∈ ts, Fits t.fld S0 S1) (hK : 0 < K) (hL : 0 < L)
+    (hS0 : S0 ≤ K) (hS1 : S1 ≤ L) (oe : Extent) (P0 P1 : ℤ) (hoe : oe.rmin ≤ oe.rmax ∧ oe.cmin ≤ oe.cmax) (hP : 0 < P0 ∧ 0 < P1)
+    (hcover : ∀ t ∈ ts, ∀ q ∈ periodBox K L, (oe.inb q.1 q.2 && (propExtent P0 P1 t.fix0 t.fix1).inb q.1 q.2) = true) :
+    ∑ q ∈ periodBox K L, Complex.normSq
+        ((ts.map fun t => embO (propagateField t (1 / (K : ℝ)) (1 / (L : ℝ)) oe P0 P1) q.1 q.2).sum)
+      = arrSum (intensity (R := ℝ) (embedAll (ts.map fun t =>
+          rampFld t.fld (1 / (K : ℝ)) (1 / (L : ℝ)) ((t.fix0 : ℝ) + t.sub0) ((t.fix1 : ℝ) + t.sub1)) S0 S1)) := by
+  have hfit' : ∀ f ∈ ts.map (fun t => rampFld t.fld (1 / (K : ℝ)) (1 / (L : ℝ)) ((t.fix0 : ℝ) + t.sub0) ((t.fix1 : ℝ) + t.sub1)), Fits f S0 S1 := by
+    intro f hf
+    obtain ⟨t, ht, rfl⟩ := List.mem_map.mp hf
+    exact fits_ramp _ _ _ _ _ S0 S1 (hfit t ht)
+  rw [← (plane_energy_le _ S0 S1 K L hfit' hK hL hS0 hS1 (periodBox K L) (Finset.Subset.refl _)).2]
+  refine sum_congr rfl fun q hq => ?_
+  congr 1
+  rw [← sum_fraunhoferAt_int, List.map_map]
+  congr 1
+  apply List.map_congr_left
+  intro t ht
+  rw [C02.propagateField_sample (K := ℂ) (R := ℝ) (fun _ => rfl) t _ _ oe P0 P1 hoe hP, hcover t ht q hq, if_pos rfl]
+  simp only [Function.comp, RealLike.ofInt]
+  rw [← fraunhoferAt_ramp]
+  congr 1 <;> push_cast <;> ring
+
 end Lentil
